@@ -81,6 +81,23 @@ func none(s string) string {
 	return s
 }
 
+// failedEncode emits the record of a case whose encoding took the (child) process down: msg is the fatal
+// error, "" when the child encoded the value after all (then the case is run here like any other).
+func failedEncode(t *tr.Writer, id int, g gen.Gen, v gen.Val, mode string, extra tr.Rec, msg string) {
+	if msg == "" {
+		roundTrip(t, id, g, v, mode, extra)
+		return
+	}
+	rec := tr.Rec{"ev": "one", "case": id, "kind": "rt", "shape": g.Name, "class": v.Class, "mode": mode, "leaf": g.Leaf,
+		"encerr": "none", "encpanic": msg, "in": fmtx.AbsValue(v.V), "nvals": 1, "errmsg": "none", "haserr": false,
+		"toks": []fmtx.Tok{}, "ntoks": 0, "decerr": "none", "decpanic": "none",
+		"out": fmtx.Graph{Nodes: []fmtx.AV{}, Root: fmtx.AV{"k": "nil"}}, "outfault": "none"}
+	for k, x := range extra {
+		rec[k] = x
+	}
+	t.Emit(rec)
+}
+
 // roundTrip runs one case and emits its record.
 func roundTrip(t *tr.Writer, id int, g gen.Gen, v gen.Val, mode string, extra tr.Rec) {
 	simple := mode == "simple"
